@@ -56,6 +56,8 @@ class Wsdl:
     service: str
     imported_schema: bool = False
     style_on_binding: bool = True
+    style_override: bool = False  # some operations declare their own style next to the binding's
+    binding_style: str = "document"
     features: set = field(default_factory=set)
     ctypes: list = field(default_factory=list)  # named complex types (El: name + fields) used by parts given by type
 
@@ -112,9 +114,14 @@ class WsdlGen:
         w.imported_schema = rng.random() < 0.3
         style = rng.choice(["document", "rpc"])
         w.style_on_binding = rng.random() < 0.5
+        w.style_override = w.style_on_binding and rng.random() < 0.4
+        w.binding_style = style
         for i in range(rng.randrange(1, 5)):
             opname = self.name("Op")
-            op_style = style
+            # soap:operation/@style overrides the style of soap:binding for that operation
+            op_style = style if not w.style_override or rng.random() < 0.5 else {"document": "rpc", "rpc": "document"}[style]
+            if op_style != style:
+                w.features.add("operation-style-overrides-binding-style")
             op = Op(opname, op_style, rng.choice([f"{tns}/{opname}", "", None]), [], [])
             if op_style == "document":
                 req = self.element("Req")
@@ -212,10 +219,10 @@ def render(w: Wsdl) -> dict:
             out.append(f'      <fault name="{op.name}Fault" message="tns:{op.name}Fault"/>')
         out.append("    </operation>")
     out.append("  </portType>")
-    bstyle = f' style="{w.ops[0].style}"' if w.style_on_binding else ""
+    bstyle = f' style="{w.binding_style}"' if w.style_on_binding else ""
     out.append(f'  <binding name="{w.binding}" type="tns:{w.port_type}">\n    <soap:binding transport="{HTTP}"{bstyle}/>')
     for op in w.ops:
-        ostyle = "" if w.style_on_binding else f' style="{op.style}"'
+        ostyle = "" if w.style_on_binding and op.style == w.binding_style else f' style="{op.style}"'
         action = "" if op.soap_action is None else f' soapAction="{op.soap_action}"'
         body_ns = f' namespace="{op.body_ns}"' if op.body_ns else ""
         hdr = f'\n        <soap:header message="tns:{op.name}Hdr" part="header" use="literal"/>' if op.header else ""
